@@ -5,8 +5,10 @@ package props
 // C10: with a non-zero gap-open cost Global and Local still return the optimal score.
 
 import (
+	"bytes"
 	"errors"
 	"fmt"
+	"slices"
 	"sync"
 	"sync/atomic"
 	"testing"
@@ -23,6 +25,9 @@ type OptCase struct {
 	AlignCase
 	Kind string `json:"kind,omitempty"`
 	X    int    `json:"x,omitempty"`
+	// filled in by the check, not part of the case
+	refilledScore float64
+	haveRefilled  bool
 }
 
 func genOpt(nonZeroOpen bool) func(t *rapid.T, thorough bool) OptCase {
@@ -136,6 +141,44 @@ func checkOptimal(c OptCase, o *Obs, wantNonZeroOpen bool) error {
 
 // optimalOnce runs one alignment call and compares it with the reference optimum.
 func optimalOnce(c OptCase, o *Obs, m align.SubstitutionMatrix, rm ref.Matrix, wantNonZeroOpen bool) error {
+	if !c.SameSlice && len(c.A)+len(c.B) <= 400 {
+		// an earlier call that ended in the documented panic (a character without scores at the end
+		// of a sequence that otherwise equals this case's a) leaves nothing behind
+		if alien, ok := alienByte(m); ok {
+			xa := append(bytes.Clone(c.A), alien)
+			catch(func() {
+				if c.Local {
+					align.Local(xa, bytes.Clone(c.B), m)
+				} else {
+					align.Global(xa, bytes.Clone(c.B), m)
+				}
+			})
+		}
+		// the subject buffer of the previous call, refilled in place with another sequence of the
+		// same length (a record-reading loop): this call is about what the buffer holds now
+		if len(c.B) >= 2 {
+			buf := bytes.Clone(c.B)
+			slices.Reverse(buf)
+			catch(func() {
+				if c.Local {
+					align.Local(bytes.Clone(c.A), buf, m)
+				} else {
+					align.Global(bytes.Clone(c.A), buf, m)
+				}
+			})
+			copy(buf, c.B)
+			var score float64
+			if p := catch(func() {
+				if c.Local {
+					_, _, _, score = align.Local(bytes.Clone(c.A), buf, m)
+				} else {
+					_, score = align.Global(bytes.Clone(c.A), buf, m)
+				}
+			}); p == nil {
+				c.refilledScore, c.haveRefilled = score, true // compared below with the ordinary call
+			}
+		}
+	}
 	res, err := runAlign(c.AlignCase, m)
 	if err != nil {
 		return err
@@ -156,6 +199,10 @@ func optimalOnce(c OptCase, o *Obs, m align.SubstitutionMatrix, rm ref.Matrix, w
 		o.Class("local with positive gap scores (score only)")
 	} else if err := checkValidity(c.AlignCase, rm, res, o); err != nil {
 		return err
+	}
+	if c.haveRefilled && !near(c.refilledScore, res.score, c.M.tol()) {
+		return fmt.Errorf("%s on a subject buffer that held the reversed sequence during the previous call and was refilled in place scores %v, the same call on fresh slices scores %v (a=%q b=%q, %s)",
+			map[bool]string{true: "Local", false: "Global"}[c.Local], c.refilledScore, res.score, []byte(c.A), []byte(c.B), matDesc(c.M))
 	}
 	opt := ref.Optimum(c.A, c.B, rm, c.Local)
 	// Non-trivial: the optimum needs a gap or a local trim, i.e. differs from the gap-free
@@ -192,7 +239,7 @@ func optimalOnce(c OptCase, o *Obs, m align.SubstitutionMatrix, rm ref.Matrix, w
 	// A sequence aligned with itself, the very same slice passed as both arguments.
 	if !c.SameSlice && len(c.A) > 0 {
 		self := c
-		self.B, self.SameSlice, self.Mutate = c.A, true, nil
+		self.B, self.SameSlice, self.Mutate, self.haveRefilled = c.A, true, nil, false
 		if err := optimalOnce(self, &Obs{}, m, rm, wantNonZeroOpen); err != nil {
 			return fmt.Errorf("with one slice passed as both sequences: %w", err)
 		}
